@@ -80,6 +80,7 @@ func c17Rotation(t *testing.T, run *Run) {
 		label := []string{"", "rot"}[rng.Intn(2)]
 		negative := ci%3 == 2
 		withSecret := ci%2 == 1
+		quiet := ci%4 == 1 && !negative
 		var steps []string
 		var failure string
 		var negSeen bool
@@ -94,6 +95,11 @@ func c17Rotation(t *testing.T, run *Run) {
 				both := withSecret && i%2 == 0
 				nd, err := c.Add(NodeSpec{Name: fmt.Sprintf("n%d", i), Mutate: func(cf *memberlist.Config) {
 					cf.Keyring = ring
+					if quiet {
+						// nothing but the traffic this check sends: no gossip, probes or state exchanges in between
+						cf.ProbeInterval = noProbe
+						cf.GossipInterval = 0
+					}
 					if both {
 						cf.SecretKey = kOld // keyring and secret key both given: the key is (already) the ring's primary
 					}
@@ -153,6 +159,11 @@ func c17Rotation(t *testing.T, run *Run) {
 					}
 					step := fmt.Sprintf("%s@%s", ph.name, nd.Name)
 					steps = append(steps, step)
+					if quiet && rng.Intn(3) > 0 && !(pi == len(phases)-1 && si == n-1) {
+						// a quiet cluster: most steps are not followed by any traffic at all (the last one always is)
+						run.Cell("rotation", "quiet-step-without-traffic")
+						continue
+					}
 					f, sent := probeAllPairs(c, fmt.Sprintf("%d.%d", pi, si))
 					run.Count("rotation_probes", int64(sent))
 					run.Cell("rotation", ph.name, fmt.Sprintf("step%d/%d", si+1, n), fmt.Sprintf("pv%d", pv), "label="+label, fmt.Sprintf("secretkey-too=%v", withSecret))
